@@ -736,3 +736,8 @@ def run(ctx: Ctx, rep: Report, tier: str) -> None:
     rep.absorb(sub2, "R12.10")
     r12_5(ctx, rep)
     r12_6(ctx, rep)
+
+
+# what the later rounds (seeding rounds 2-5, refactor twins, defect hunt) added to what the check decides
+LATER_ROUNDS = "collections only grow, nothing is de-duplicated, every line placed by grouping (the dropped repeated heading is known finding K6)"
+EXPLANATION = EXPLANATION.replace(" Does not decide", " Later rounds added: " + LATER_ROUNDS + ". Does not decide", 1) if " Does not decide" in EXPLANATION else EXPLANATION + " Later rounds added: " + LATER_ROUNDS + "."
